@@ -102,6 +102,22 @@ def generate(rng, tier):
         # interior extremum values (double roots) for quadratics: c - b^2/(4a)
         if len(cs) == 3 and cs[2] != 0:
             ys.append(b2f(f2b(cs[0] - cs[1] * cs[1] / (4 * cs[2]))))
+        # right-hand sides close to a stationary value of a cubic: two solutions a moderate distance apart (they must both be
+        # reported, not merged into one at the stationary point) or none nearby (none may be invented)
+        if len(cs) == 4 and cs[3] != 0:
+            a3, b3, c3 = 3 * cs[3], 2 * cs[2], cs[1]
+            disc = b3 * b3 - 4 * a3 * c3
+            if disc > 0:
+                for sgn in (1, -1):
+                    u = (-b3 + sgn * math.sqrt(disc)) / (2 * a3)
+                    if -1.0 <= u <= 2.0:
+                        pv = pe(cs, u)
+                        curv = 2 * cs[2] + 6 * cs[3] * u          # p''(u)
+                        if curv != 0:
+                            w = rng.choice([0.03, 0.06, 0.1, 0.15])   # half distance between the two solutions
+                            dy = 0.5 * abs(curv) * w * w
+                            ys.append(pv - dy if curv < 0 else pv + dy)   # two solutions about 2w apart
+                            ys.append(pv + dy if curv < 0 else pv - dy)   # the polynomial stays away by dy on this side
         qs = []
         for y in ys:
             y = b2f(f2b(y))
